@@ -1,7 +1,8 @@
 #!/bin/bash
-# usage: tools/benigncheck.sh <dir with patch.diff>   - applies a behaviour-preserving change to a scratch worktree and
+# usage: tools/benigncheck.sh <dir with patch.diff> [<prop>...]  (default: every claimed property) - applies a behaviour-preserving change to a scratch worktree and
 # runs EVERY claimed quick check there; prints one line per check that does not exit 0, and a summary line
-d="$1"
+d="$1"; shift
+props="$*"
 wt=$(mktemp -d /tmp/benignchk.XXXXXX); rmdir "$wt"
 git -C /repo worktree add -q --detach "$wt" HEAD || exit 3
 cleanup() { git -C /repo worktree remove --force "$wt" 2>/dev/null; rm -rf "$wt"; }
@@ -9,7 +10,7 @@ trap cleanup EXIT
 cd "$wt" || exit 3
 git apply "$d/patch.diff" || { echo "BENIGN $d: DOES-NOT-APPLY"; exit 2; }
 bad=""
-for p in $(python3 -c "import json;print(' '.join(c['property_id'] for c in json.load(open('/verif/MANIFEST.json'))['checks']))"); do
+for p in ${props:-$(python3 -c "import json;print(' '.join(c['property_id'] for c in json.load(open('/verif/MANIFEST.json'))['checks']))")}; do
   out=$(cd /verif && PYVC_REPO="$wt" PYVC_OUT="$wt/.pyvc_out" ./check "$p" --tier quick 2>&1); rc=$?
   if [ $rc -ne 0 ]; then bad="$bad $p(rc=$rc)"; echo "BENIGN $d $p rc=$rc :: $(echo "$out" | grep "^VIOLATION\|^UNDECIDED\|^CHECKER" | head -3 | cut -c1-260 | tr '\n' ';')"; fi
 done
